@@ -68,10 +68,10 @@ PROPS = {
     },
     'C16': {
         'level': 'other',
-        'explanation': 'Decided (Verus, unbounded): Histogram::new accepts exactly its documented domain and establishes well-formedness; Prio2::new never overflows and accepts exactly the lengths that fit the 2^20 subgroup; check_num_aggregators; all *_len accessors of Histogram/SumVec/MultihotCountVec/Sum compute without overflow on usable instances. Decided (Kani): Prio3::new, role_try_from (every usize id), random_size, wrong randomness length, wrong verifier-share length/count, out-of-range field bytes. Known finding: Histogram/SumVec/MultihotCountVec::new accept chunk lengths for which the length accessors overflow.',
+        'explanation': 'Decided (Verus, unbounded): Histogram::new accepts exactly its documented domain and establishes well-formedness; Prio2::new never overflows and accepts exactly the lengths that fit the 2^20 subgroup; check_num_aggregators; all *_len accessors of Histogram/SumVec/MultihotCountVec/Sum compute without overflow on usable instances; Sum::new, SumVec::new, MultihotCountVec::new and L1BoundSum::new (F::Integer = u128 and u64, abstract modulus) return Ok exactly on their documented domain, never panic or overflow on ANY argument, and set bits / last_weight / gadget_calls to floor(log2 max)+1 / max-(2^(bits-1)-1) / ceil(encoded length / chunk_length). Decided (Kani): Prio3::new, role_try_from (every usize id), random_size, wrong randomness length, wrong verifier-share length/count, out-of-range field bytes. Known finding: Histogram/SumVec/MultihotCountVec::new accept chunk lengths for which the length accessors overflow.',
         'trusted': ['usize::next_power_of_two, u32::try_from std semantics (assume_specification / external_body)'],
         'quick': {
-            'verus': [('flp_lens', 'unit'), ('flp_lens', 'unit_usable'), ('vdaf_guards', 'unit')],
+            'verus': [('flp_lens', 'unit'), ('flp_lens', 'unit_usable'), ('vdaf_guards', 'unit'), ('flp_new', 'unit', 'u128'), ('flp_new', 'unit', 'u64')],
             'kani': [{'files': KC + ['sym_prio3.rs', 'c16_prio3.rs'],
                       'harnesses': ['p3_role_try_from', 'p3_random_size', 'p3_new_guards', 'p3_shard_wrong_random_len', 'p3_vs2m_share_count_small', 'p3_vs2m_share_len']}],
         },
@@ -98,9 +98,9 @@ PROPS = {
     },
     'C02': {
         'level': 'other',
-        'explanation': 'Decided (Kani, real Prio3 code over a nondeterministic Type): the deterministic rejection guards the soundness argument relies on: exactly num_aggregators verifier shares of exactly the declared length or Err; decide() consulted for every proof and any false/Err => Err; joint-randomness seed recomputed from ALL parts in order; verify_next compares ALL seed bytes and releases no output share on mismatch. The soundness error bound itself is probabilistic: not decided.',
+        'explanation': 'Decided (Kani, real Prio3 code over a nondeterministic Type): the deterministic rejection guards the soundness argument relies on: exactly num_aggregators verifier shares of exactly the declared length or Err; decide() consulted for every proof and any false/Err => Err; joint-randomness seed recomputed from ALL parts in order; verify_next compares ALL seed bytes and releases no output share on mismatch. Decided (Verus): the constructors of SumVec / MultihotCountVec / L1BoundSum set gadget_calls (== joint_rand_len) to ceil(encoded input length / chunk_length), so every chunk of the encoded input - including the digits of a claimed norm or weight - is handed to a range-check gadget call. The soundness error bound itself is probabilistic: not decided.',
         'trusted': ['FLP soundness (probabilistic)'],
-        'quick': {'verus': [], 'kani': [{'files': KC + ['sym_prio3.rs', 'c16_prio3.rs'],
+        'quick': {'verus': [('flp_new', 'unit', 'u128')], 'kani': [{'files': KC + ['sym_prio3.rs', 'c16_prio3.rs'],
                                          'harnesses': ['p3_vs2m_share_count_small', 'p3_vs2m_share_len', 'p3_vs2m_decide_all_proofs', 'p3_verify_next_seed_compare']}]},
         'thorough': {'kani': [{'files': KC + ['sym_prio3.rs', 'c16_prio3.rs'], 'harnesses': ['p3_vs2m_share_count_256', 'p3_vs2m_share_count_258'], 'timeout': 2400}]},
     },
